@@ -67,6 +67,11 @@ pub enum FEvent {
     Stream(u32),
     Notify(u32),
     Got { site: u32, a: u64, s: String, blen: u32 },
+    /// `request(site).then(request(site + 500_000))`: work that starts when the first part ends,
+    /// however it ends
+    Chained(u32, String),
+    /// a task awaiting the join handle of a sub-task that holds the request, then asking again
+    Spawned(u32),
 }
 
 #[derive(Default)]
@@ -103,6 +108,8 @@ fn describe(e: &FEvent, depth: usize) -> String {
         FEvent::Stream(s) => format!("stream:{s}"),
         FEvent::Notify(s) => format!("notify:{s}"),
         FEvent::Got { site, a, s, blen } => format!("got:{site}:{a}:{}:{blen}", s.len()),
+        FEvent::Chained(s, n) => format!("chained:{s}:{}", n.len()),
+        FEvent::Spawned(s) => format!("spawned:{s}"),
     }
 }
 
@@ -134,6 +141,34 @@ impl crux_core::App for FuzzApp {
             })
             .then_send(got(site)),
             FEvent::Notify(site) => Command::notify_shell(FSig { site }).into(),
+            FEvent::Chained(site, note) => Command::request_from_shell(FOp { site, note })
+                .then_send(got(site))
+                .then(
+                    Command::request_from_shell(FOp {
+                        site: site + 500_000,
+                        note: String::new(),
+                    })
+                    .then_send(got(site + 500_000)),
+                ),
+            FEvent::Spawned(site) => Command::new(move |ctx| async move {
+                let sub = ctx.spawn(move |ctx| async move {
+                    let o = ctx
+                        .request_from_shell(FOp {
+                            site,
+                            note: String::new(),
+                        })
+                        .await;
+                    ctx.send_event(got(site)(o));
+                });
+                sub.await;
+                let o = ctx
+                    .request_from_shell(FOp {
+                        site: site + 500_000,
+                        note: String::new(),
+                    })
+                    .await;
+                ctx.send_event(got(site + 500_000)(o));
+            }),
             _ => Command::done(),
         }
     }
